@@ -1,7 +1,6 @@
-(* Lemmas for C15 (Model/Registry.v). *)
+(* Lemmas for C15 (Model/Registry.v) — the repaired getreader (`_myreaders = list(_readers)`). *)
 From PNC Require Import Base.Util Model.Registry.
 
-(* ---- basic facts ------------------------------------------------------------------------- *)
 Lemma result_eqb_eq a b : result_eqb a b = true -> a = b.
 Proof.
   destruct a, b; simpl; intros H; try discriminate; try reflexivity;
@@ -10,19 +9,6 @@ Qed.
 
 Lemma result_eqb_refl a : result_eqb a a = true.
 Proof. destruct a; simpl; auto using Nat.eqb_refl. Qed.
-
-(* every pair of `pre` carries a name that the registry knows *)
-Definition registered (reg pre : registry) : Prop :=
-  Forall (fun kr => lookup_last (fst kr) reg <> None) pre.
-
-Lemma lookup_last_app_registered n reg pre :
-  registered reg pre -> lookup_last n (pre ++ reg) = lookup_last n reg.
-Proof.
-  induction 1 as [|[k r] pre Hk Hpre IH]; simpl; auto.
-  rewrite IH. destruct (lookup_last n reg) eqn:E; auto.
-  destruct (Nat.eqb k n) eqn:Ek; auto.
-  apply Nat.eqb_eq in Ek. subst. simpl in Hk. congruence.
-Qed.
 
 Lemma lookup_last_In n reg r : lookup_last n reg = Some r -> In (n, r) reg.
 Proof.
@@ -33,24 +19,10 @@ Proof.
     intros H. injection H as ->. apply Nat.eqb_eq in Ek. subst. left. reflexivity.
 Qed.
 
-Lemma inserted_registered reg h : registered reg (inserted reg h).
-Proof.
-  induction h as [|[e f|n f] t IH]; simpl; try assumption; try constructor.
-  destruct (lookup_last e reg) eqn:E; try assumption.
-  constructor; auto. simpl. congruence.
-Qed.
+(* ---- getreader / pncopen never change the registry ------------------------------------------- *)
+Lemma step_pure acc reg s : fst (impl_step acc reg s) = reg.
+Proof. destruct s; reflexivity. Qed.
 
-Lemma inserted_In reg h kr : In kr (inserted reg h) -> In kr reg.
-Proof.
-  induction h as [|[e f|n f] t IH]; simpl; try tauto.
-  destruct (lookup_last e reg) eqn:E; auto.
-  intros [<-|H]; auto using lookup_last_In.
-Qed.
-
-Lemma registered_rev reg pre : registered reg pre -> registered reg (rev pre).
-Proof. unfold registered. intros H. apply Forall_rev. exact H. Qed.
-
-(* ---- unfolding the run ------------------------------------------------------------------- *)
 Lemma impl_final_cons acc reg s t :
   impl_final acc reg (s :: t) = impl_final acc (fst (impl_step acc reg s)) t.
 Proof.
@@ -66,140 +38,40 @@ Proof.
   destruct (impl_run acc reg' t). reflexivity.
 Qed.
 
-Lemma impl_step_fst_app acc reg pre s :
-  registered reg pre ->
-  fst (impl_step acc (pre ++ reg) s)
-  = match s with
-    | Auto e _ => match lookup_last e reg with Some r => (e, r) :: pre | None => pre end
-    | Named _ _ => pre
-    end ++ reg.
+Lemma registry_unchanged acc reg h : impl_final acc reg h = reg.
 Proof.
-  intros Hp. destruct s as [e f|n f]; simpl; auto.
-  unfold prefer. rewrite lookup_last_app_registered by assumption.
-  destruct (lookup_last e reg); reflexivity.
+  revert reg; induction h as [|s t IH]; intros reg; [reflexivity|].
+  rewrite impl_final_cons, step_pure. apply IH.
 Qed.
 
-Lemma registered_step reg pre e :
-  registered reg pre ->
-  registered reg (match lookup_last e reg with Some r => (e, r) :: pre | None => pre end).
+Lemma registry_length_steps acc reg h :
+  map snd (snd (impl_run acc reg h)) = map (fun _ => length reg) h.
 Proof.
-  intros Hp. destruct (lookup_last e reg) eqn:E; auto.
-  constructor; auto. simpl. congruence.
+  revert reg; induction h as [|s t IH]; intros reg; [reflexivity|].
+  simpl. pose proof (step_pure acc reg s) as P.
+  destruct (impl_step acc reg s) as [reg' r]. simpl in P. subst reg'.
+  specialize (IH reg). destruct (impl_run acc reg t). simpl in *. f_equal. exact IH.
 Qed.
 
-(* ---- the registry after a history: exact shape -------------------------------------------- *)
-Lemma run_shape_gen acc reg : forall h pre, registered reg pre ->
-  impl_final acc (pre ++ reg) h = rev (inserted reg h) ++ pre ++ reg.
+Lemma history_independent acc reg h : impl_results acc reg h = spec_results acc reg h.
 Proof.
-  induction h as [|s t IH]; intros pre Hp.
-  - reflexivity.
-  - rewrite impl_final_cons, impl_step_fst_app by assumption.
-    destruct s as [e f|n f]; simpl.
-    + destruct (lookup_last e reg) eqn:E.
-      * rewrite (IH ((e, r) :: pre)).
-        -- simpl. rewrite <- app_assoc. reflexivity.
-        -- constructor; auto. simpl. congruence.
-      * apply IH. assumption.
-    + apply IH. assumption.
+  revert reg; induction h as [|s t IH]; intros reg; [reflexivity|].
+  rewrite impl_results_cons, step_pure. unfold spec_results in *. simpl. f_equal. apply IH.
 Qed.
 
-Lemma run_shape acc reg h : impl_final acc reg h = rev (inserted reg h) ++ reg.
-Proof. apply (run_shape_gen acc reg h []). constructor. Qed.
-
-Lemma registry_grows acc reg h :
-  length (impl_final acc reg h) = length reg + length (inserted reg h).
-Proof. rewrite run_shape, app_length, rev_length. lia. Qed.
-
-Lemma registry_set_preserved acc reg h kr : In kr (impl_final acc reg h) <-> In kr reg.
-Proof.
-  rewrite run_shape, in_app_iff, <- in_rev. split.
-  - intros [H|H]; auto. eapply inserted_In; eauto.
-  - auto.
-Qed.
-
-Lemma named_history_independent acc reg h n :
-  lookup_last n (impl_final acc reg h) = lookup_last n reg.
-Proof.
-  rewrite run_shape. apply lookup_last_app_registered.
-  apply registered_rev, inserted_registered.
-Qed.
-
-Lemma named_step_history_independent acc reg h n f :
-  snd (impl_step acc (impl_final acc reg h) (Named n f)) = snd (impl_step acc reg (Named n f))
-  /\ fst (impl_step acc (impl_final acc reg h) (Named n f)) = impl_final acc reg h.
-Proof.
-  simpl. unfold named_result. rewrite named_history_independent. auto.
-Qed.
-
-(* ---- the repaired getreader ---------------------------------------------------------------- *)
-Lemma spec_final_id acc reg h : spec_final acc reg h = reg.
-Proof.
-  unfold spec_final. induction h as [|s t IH]; simpl; auto.
-  destruct s; simpl; exact IH.
-Qed.
-
-Lemma spec_history_independent acc reg h s :
-  spec_final acc reg h = reg
-  /\ snd (spec_step acc (spec_final acc reg h) s) = snd (spec_step acc reg s).
-Proof. rewrite spec_final_id. auto. Qed.
-
-(* ---- neutral histories ---------------------------------------------------------------------- *)
-Lemma first_accepting_pre (a : reader -> outcome) pre l :
-  forallb (fun kr => is_no (a (snd kr)) || result_eqb (res_of (a (snd kr)) (snd kr)) (first_accepting a l)) pre = true ->
-  first_accepting a (pre ++ l) = first_accepting a l.
-Proof.
-  induction pre as [|[k r] pre IH]; simpl; auto.
-  intros H. apply andb_true_iff in H as [H1 H2].
-  destruct (a r) eqn:E; cbn [is_no res_of orb] in H1.
-  - apply IH. exact H2.
-  - apply result_eqb_eq in H1. auto.
-  - apply result_eqb_eq in H1. auto.
-Qed.
-
-Lemma step_neutral acc reg pre e f :
-  registered reg pre ->
-  own_decides acc reg e f || pre_neutral acc f (fresh_result acc reg (Auto e f)) pre = true ->
-  snd (impl_step acc (pre ++ reg) (Auto e f)) = fresh_result acc reg (Auto e f).
-Proof.
-  intros Hp H. unfold fresh_result, own_decides, pre_neutral in *. simpl in *. unfold prefer in *.
-  rewrite lookup_last_app_registered by assumption.
-  destruct (lookup_last e reg) eqn:E.
-  - simpl in *. destruct (acc r f) eqn:A; simpl in *; auto.
-    apply (first_accepting_pre (fun r0 => acc r0 f)). exact H.
-  - simpl in H. apply (first_accepting_pre (fun r0 => acc r0 f)). exact H.
-Qed.
-
-Lemma run_neutral_gen acc reg : forall h pre, registered reg pre ->
-  neutral_from acc reg pre h = true ->
-  impl_results acc (pre ++ reg) h = spec_results acc reg h.
-Proof.
-  induction h as [|s t IH]; intros pre Hp Hn.
-  - reflexivity.
-  - rewrite impl_results_cons, impl_step_fst_app by assumption.
-    destruct s as [e f|n f]; simpl in Hn.
-    + apply andb_true_iff in Hn as [H1 H2].
-      unfold spec_results. simpl map. f_equal.
-      * apply step_neutral; assumption.
-      * apply IH; auto. apply registered_step. assumption.
-    + unfold spec_results. simpl map. f_equal.
-      * simpl. unfold fresh_result. simpl. unfold named_result.
-        rewrite lookup_last_app_registered by assumption. reflexivity.
-      * apply IH; auto.
-Qed.
-
-Lemma run_neutral acc reg h :
-  neutral acc reg h = true -> impl_results acc reg h = spec_results acc reg h.
-Proof. intros H. apply (run_neutral_gen acc reg h []); auto. constructor. Qed.
+Lemma probe_after_history acc reg h s :
+  impl_step acc (impl_final acc reg h) s = impl_step acc reg s.
+Proof. rewrite registry_unchanged. reflexivity. Qed.
 
 (* ---- a telling extension always wins --------------------------------------------------------- *)
 Lemma telling_extension acc reg h e f r :
   lookup_last e reg = Some r -> acc r f = Yes ->
   snd (impl_step acc (impl_final acc reg h) (Auto e f)) = Selected r
-  /\ snd (impl_step acc reg (Named e f)) = Selected r.
+  /\ snd (impl_step acc (impl_final acc reg h) (Named e f)) = Selected r.
 Proof.
-  intros L A. split.
-  - simpl. unfold prefer. rewrite named_history_independent, L. simpl. rewrite A. reflexivity.
-  - simpl. unfold named_result. rewrite L. reflexivity.
+  intros L A. rewrite registry_unchanged. split; simpl.
+  - unfold prefer. rewrite L. simpl. rewrite A. reflexivity.
+  - unfold named_result. rewrite L. reflexivity.
 Qed.
 
 (* ---- a file that only one registered class claims ---------------------------------------------- *)
@@ -224,7 +96,7 @@ Lemma sole_claimant_any_history acc reg h e f r :
   sole_claimant acc reg r f = true ->
   snd (impl_step acc (impl_final acc reg h) (Auto e f)) = Selected r.
 Proof.
-  unfold sole_claimant. intros H.
+  rewrite registry_unchanged. unfold sole_claimant. intros H.
   apply andb_true_iff in H as [H H3]. apply andb_true_iff in H as [H1 H2].
   destruct (acc r f) eqn:A; try discriminate.
   apply existsb_exists in H2 as [[k0 r0] [Hin0 Heq0]]. simpl in Heq0. apply Nat.eqb_eq in Heq0. subst r0.
@@ -234,17 +106,22 @@ Proof.
     right. apply Nat.eqb_eq. exact H3. }
   simpl. apply (first_accepting_sole (fun r0 => acc r0 f)); auto.
   - intros kr Hk. apply Hreg. unfold prefer in Hk.
-    destruct (lookup_last e (impl_final acc reg h)) eqn:L.
-    + destruct Hk as [<-|Hk].
-      * apply (registry_set_preserved acc reg h). apply lookup_last_In. exact L.
-      * apply (registry_set_preserved acc reg h). exact Hk.
-    + apply (registry_set_preserved acc reg h). exact Hk.
-  - exists k0. unfold prefer.
-    destruct (lookup_last e (impl_final acc reg h)); [right|];
-      apply (registry_set_preserved acc reg h); exact Hin0.
+    destruct (lookup_last e reg) eqn:L; auto.
+    destruct Hk as [<-|Hk]; auto. apply lookup_last_In. exact L.
+  - exists k0. unfold prefer. destruct (lookup_last e reg); [right|]; exact Hin0.
 Qed.
 
-(* ---- concrete witnesses (a miniature of the real registry) ------------------------------------
+(* clause 2 on the unambiguous files: auto-detected reader = explicitly named reader, after any history *)
+Lemma auto_equals_named_sole acc reg h e n f r :
+  sole_claimant acc reg r f = true -> lookup_last n reg = Some r ->
+  snd (impl_step acc (impl_final acc reg h) (Auto e f))
+  = snd (impl_step acc (impl_final acc reg h) (Named n f)).
+Proof.
+  intros S L. rewrite (sole_claimant_any_history acc reg h e f r S).
+  rewrite registry_unchanged. simpl. unfold named_result. rewrite L. reflexivity.
+Qed.
+
+(* ---- concrete witness (a miniature of the real registry) ---------------------------------------
    names  : 0 gcnc, 1 ioapi, 2 netcdf, 3 nc, 4 Dataset, 5 uamiv, 6 humidity, 7 vertical_diffusivity, 9 '' (no suffix)
    readers: 0 gcnc, 1 ioapi, 2 netcdf, 3 Dataset (no isMine), 4 uamiv, 5 vertical_diffusivity, 6 humidity
    files  : 0 IOAPI netCDF file, 1 plain netCDF file, 2 uamiv file, 3 humidity file (one3d layout)          *)
@@ -252,51 +129,16 @@ Definition w_reg : registry :=
   [(0, 0); (7, 5); (5, 4); (1, 1); (6, 6); (3, 2); (2, 2); (4, 3)].
 Definition w_tbl : list (file * list (reader * outcome)) :=
   [ (0, [(0, Yes); (1, Yes); (2, Yes); (3, Yes)]);
-    (1, [(0, Yes); (2, Yes); (3, Yes); (4, Raise 0)]);     (* uamiv.isMine raises ValueError on a small netCDF file *)
+    (1, [(0, Yes); (2, Yes); (3, Yes)]);
     (2, [(4, Yes); (3, Yes)]);
     (3, [(5, Yes); (6, Yes); (3, Yes)]) ].
 Definition w_acc := acc_of w_tbl.
-
-Lemma history_refuted_w :
-  impl_results w_acc w_reg [Auto 3 1; Auto 9 0] = [Selected 2; Selected 2]
-  /\ spec_results w_acc w_reg [Auto 3 1; Auto 9 0] = [Selected 2; Selected 0].
-Proof. vm_compute. split; reflexivity. Qed.
-
-Lemma history_breaks_open_w :
-  impl_results w_acc w_reg [Auto 5 2; Auto 9 1] = [Selected 4; Raised 0]
-  /\ spec_results w_acc w_reg [Auto 5 2; Auto 9 1] = [Selected 4; Selected 0].
-Proof. vm_compute. split; reflexivity. Qed.
-
-Lemma registry_unchanged_refuted_w :
-  length (impl_final w_acc w_reg [Auto 3 1; Auto 3 1; Auto 3 1]) = 11 /\ length w_reg = 8.
-Proof. vm_compute. split; reflexivity. Qed.
 
 Lemma auto_equals_named_refuted_w :
   lookup_last 6 w_reg = Some 6 /\ w_acc 6 3 = Yes
   /\ fresh_result w_acc w_reg (Named 6 3) = Selected 6
   /\ fresh_result w_acc w_reg (Auto 9 3) = Selected 5.
 Proof. vm_compute. repeat split; reflexivity. Qed.
-
-Lemma history_independent_refuted : exists acc reg h,
-  impl_results acc reg h <> spec_results acc reg h.
-Proof.
-  exists w_acc, w_reg, [Auto 3 1; Auto 9 0].
-  destruct history_refuted_w as [-> ->]. discriminate.
-Qed.
-
-Lemma history_breaks_open_refuted : exists acc reg h r e,
-  nth 1 (spec_results acc reg h) NoResult = Selected r
-  /\ nth 1 (impl_results acc reg h) NoResult = Raised e.
-Proof.
-  exists w_acc, w_reg, [Auto 5 2; Auto 9 1], 0, 0.
-  destruct history_breaks_open_w as [-> ->]. split; reflexivity.
-Qed.
-
-Lemma registry_unchanged_refuted : exists acc reg h, impl_final acc reg h <> reg.
-Proof.
-  exists w_acc, w_reg, [Auto 3 1; Auto 3 1; Auto 3 1]. intros E.
-  pose proof registry_unchanged_refuted_w as [H1 H2]. rewrite E in H1. rewrite H2 in H1. discriminate.
-Qed.
 
 Lemma auto_equals_named_refuted : exists acc reg n r f noext r',
   lookup_last n reg = Some r /\ acc r f = Yes
